@@ -22,7 +22,7 @@ RULE = ('Histories over {original, deepcopy, dill round trip} of one model (up t
 ASSUMPTIONS = ['a copy carries no cells/books (the repo\'s __getstate__ drops them): re-finishing a copy is only required not to disturb the other objects',
                'circular models are compared with a fresh model only (their exact marking is C10)']
 WATCHDOG_S = 240
-FLOORS = {'two-objects': ('frac', 0.2), 'op:copy:dill': ('count', {'quick': 20, 'thorough': 300})}
+FLOORS = {'two-objects': ('frac', 0.12), 'op:copy:dill': ('count', {'quick': 20, 'thorough': 300})}
 
 
 def check_history(case):
@@ -166,7 +166,7 @@ def check_case(case):
 
 
 def _histories(tier):
-    return H.histories(tier, max_ops=10, objects=('A', 'B', 'C'), copies=('deepcopy', 'dill', 'deepcopy'), fcopies=True, end_with_calc=True, start_with_copy=True, edits=True)
+    return H.histories(tier, max_ops=10, objects=('A', 'B', 'C'), copies=('deepcopy', 'dill', 'deepcopy'), fcopies=True, end_with_calc=True, start_with_copy=True, edits=True, undef_rate=25)
 
 
 def _fcopies(tier):
